@@ -359,7 +359,7 @@ class Responder():
             self.headers[u'date'] = httping.httpDate1123(datetime.datetime.now(datetime.UTC))
 
         if self.chunkable and self.length is None and ('transfer-encoding' not in self.headers or
-                               self.headers['transfer-encoding'] == 'chunked'):
+                               self.headers['transfer-encoding'].lower() == 'chunked'):
             self.chunked = True
             self.headers[u'transfer-encoding'] = u'chunked'
 
